@@ -25,9 +25,10 @@ RULE = ('Hypothesis-generated packets (type 0..6 - binary types reached by '
         'top-level scalar payload adjacent to the header. Distinct = distinct '
         'canonical JSON of the case.')
 ASSUMPTIONS = [
-    'bare top-level numeric payloads (only possible for CONNECT/DISCONNECT/'
-    'CONNECT_ERROR) are inherently ambiguous in the v5 header grammar; for '
-    'them only the encoder side is judged',
+    'bare top-level numeric payloads that start with a digit (only '
+    'possible for CONNECT/DISCONNECT/CONNECT_ERROR) are inherently ambiguous '
+    'in the v5 header grammar (they continue the id); for them only the '
+    'encoder side is judged. Negative ones are not ambiguous and are judged',
     'JSON integers are kept below 100 characters (documented decoder guard)',
     'the reserved key "_placeholder" is never generated',
     'explicit BINARY_EVENT/BINARY_ACK packets are built without bytes (every '
@@ -81,7 +82,9 @@ def _norm_ns(n):
 
 
 def _bare_number(v):
-    return type(v) in (int, float)
+    # (a negative number starts with '-', which cannot continue an id)
+    return type(v) in (int, float) and not (
+        v < 0 or (type(v) is float and str(v).startswith('-')))
 
 
 def check_case(case):
